@@ -537,7 +537,8 @@ Inductive op :=
 | OGet (k : value)
 | ONext (k : value)
 | OLen
-| OWalk (m p q : nat) (fresh : Z) (cap : nat).
+| OWalk (m p q : nat) (fresh : Z) (cap : nat)
+| OEq (a b : value).              (* probe: a.Equals(b), RawEqual(a,b), and 'same entry': tt := {}; tt[a]=true; tt[b] ~= nil *)
 (* OWalk: traverse with Next from nil for at most cap steps; at step j (visited key k) with
    a = (j*p+q) mod m:  a=0 -> Reset k nil (clear) ; a=1 -> Reset k fresh+j ; a=2 -> Set k fresh+j ;
    otherwise nothing.  Only existing fields are assigned or cleared. *)
@@ -547,7 +548,8 @@ Inductive result :=
 | RVal (v : value)
 | RNext (k v : value) (ok : bool)
 | RLen (n : nat)
-| RWalk (visited : list (value * value)) (s : wstatus).
+| RWalk (visited : list (value * value)) (s : wstatus)
+| REq (eq raweq : bool) (same : option bool).   (* same = None when a cannot be a key (nil, NaN) *)
 
 Fixpoint walk (cap : nat) (t : table) (k : value) (j m p q : nat) (fresh : Z) (acc : list (value * value))
   : res (table * list (value * value) * wstatus) :=
@@ -575,6 +577,10 @@ Definition step (t : table) (o : op) : res (table * result) :=
   | ONext k => '(nk, nv, ok) <- mnext t k ;; Ok (t, RNext nk nv ok)
   | OLen => n <- mlen t ;; Ok (t, RLen n)
   | OWalk m p q fresh cap => '(t', vis, s) <- walk cap t VNil 0 m p q fresh [] ;; Ok (t', RWalk vis s)
+  | OEq a b =>
+    same <- (if is_nil a || is_nan a then Ok None
+             else t1 <- tset empty_table a (VBool true) ;; v <- tget t1 b ;; Ok (Some (negb (is_nil v)))) ;;
+    Ok (t, REq (equals a b) (raw_equal_go a b) same)
   end.
 
 Fixpoint run (t : table) (os : list op) : res table :=
